@@ -39,7 +39,9 @@ ASSUMPTIONS = [
     "SOURCE_ADDR, PURPOSE and (modern) CLIENT_PROTOCOL/NYM_EPOCH/SESSION_GROUP/ISO_FIELDS; quoted "
     "SOCKS_USERNAME/SOCKS_PASSWORD values are not generated",
     "the snapshot is complete and consistent (every stream's circuit is listed, nothing is born or dies "
-    "between circuit-status, stream-status and SETEVENTS)",
+    "between circuit-status, stream-status and SETEVENTS); the one thing that does happen unseen in that window "
+    "(TorState sends SETEVENTS only after the snapshot queries) is a snapshot circuit completing up to two more "
+    "hops, so its first reported event may carry several hops beyond the snapshot's path (also on BUILT)",
     "a stream changes circuit only through DETACHED; after its circuit was reported CLOSED/FAILED the only "
     "further reports about an attached stream are FAILED/CLOSED REASON=DESTROY; a circuit id is not reused "
     "while a stream is still reported on the old circuit, a stream id not before the failed connection's "
@@ -60,7 +62,7 @@ NEWISH = ("NEW", "NEWRESOLVE", "SUCCEEDED")
 
 # the statement quantifies over "detached ... even if that circuit closed first": opt in to the extra world op
 # ... and to the silent detach of a controller re-attachment (the stream is next reported with circuit id 0)
-WEIGHTS = dict(torworld.DEFAULT_WEIGHTS, s_detach_doomed=2, s_silent_reattach=2)
+WEIGHTS = dict(torworld.DEFAULT_WEIGHTS, s_detach_doomed=2, s_silent_reattach=2, c_silent_extend=3)
 
 
 def cases():
@@ -279,6 +281,10 @@ def drive(case):
                     res.label("path-has-relay-not-in-consensus")
                 if rp.status == "EXTENDED" and m.reached_built:
                     res.label("built-circuit-re-extended")
+                if not rp.first_sight and rp.status in ("BUILT", "GUARD_WAIT") and rp.new_hops:
+                    res.label("%s-carries-hops-whose-EXTENDED-was-lost-before-SETEVENTS" % rp.status)
+                if not rp.first_sight and rp.status == "EXTENDED" and len(rp.new_hops) >= 2:
+                    res.label("EXTENDED-adds-several-hops-after-snapshot")
                 if rp.status == "GUARD_WAIT":
                     res.label("guard-wait")
             else:
@@ -349,6 +355,9 @@ def run(ctx):
 
 
 MUTANTS = [
+    ("path-reread-only-on-extended-or-while-empty", "txtorcon/circuit.py",
+     "                if len(args) > 2:\n                    self.update_path(args[2].split(','))",
+     "                if len(args) > 2 and (self.state == 'EXTENDED' or not self.path):\n                    self.update_path(args[2].split(','))"),
     ("stream-not-removed-on-failed", "txtorcon/torstate.py",
      '        txtorlog.msg("stream_failed", stream.id)\n        del self.streams[stream.id]',
      '        txtorlog.msg("stream_failed", stream.id)'),
